@@ -1019,3 +1019,6 @@ CASES += [
 CASES += [
  dict(id='mut-tokenize-reference-dropped', kind='fire', file=P, old='                result.push(SymbolicBDDToken::Reference(reference.as_str().to_string()));\n', new='                let _ = reference;\n', expect={'C08': 'reference token'}, control=False),
 ]
+CASES += [
+ dict(id='mut-colour-edge-joins-vertex-with-itself', kind='fire', file=G, old='new_edges.push((v1.clone(), v2.clone()));', new='new_edges.push((v2.clone(), v2.clone()));', expect={'C18': 'product-graph edge ends'}, control=False),
+]
